@@ -35,7 +35,7 @@ Kinds == [ parse |-> {"random", "truncated", "bit", "lengths", "tiers"},
            sealed |-> {"msgtype", "header", "switchblock", "pinghdr-version", "pinghdr-length", "pinghdr-cbor", "pinghdr-type", "pinghdr-code",
                        "pinghdr-identity", "body-random", "body-truncated", "body-wrongtype", "body-deep", "body-hugelen", "body-crossfed",
                        "hopchain-truncated", "hopchain-deep", "hopchain-random", "hopchain-oversized", "traffic-short", "traffic-version",
-                       "traffic-mismatch", "traffic-proto", "forward-unknown", "forward-ttl", "forward-noroute", "appendix-stray", "clone-sizes"},
+                       "traffic-mismatch", "traffic-proto", "traffic-nokeys", "forward-unknown", "forward-ttl", "forward-noroute", "appendix-stray", "clone-sizes"},
            kx |-> {"cross-handshake"} ]
 KindsOf(s) == CASE s = "parse" -> Kinds.parse [] s = "link-pre" -> Kinds.linkpre [] s = "link-mid" -> Kinds.linkmid
                 [] s = "link-post" -> Kinds.linkpost [] s = "sealed" -> Kinds.sealed [] OTHER -> Kinds.kx
